@@ -138,6 +138,8 @@ func famC04(rn *Runner) {
 		uo := unorderedOperands(rn)
 		for pi, p := range d.Paths {
 			// node-sets whose stored order is not document order; attributes and namespace nodes of one element together
+			// the node-set itself as the answer: ExecAsString / ExecAsNumber convert it as string() / number() would
+			rn.scalar(d, env, p, uo[pi%len(uo)], "nodeset-answer-unordered", "a node-set answer converts through its first node in document order (ExecAsString, ExecAsNumber)", true)
 			for k := 0; k < 3; k++ {
 				a := uo[(pi*3+k)%len(uo)]
 				f := pick(rn.R, []string{"string", "number", "string", "normalize-space", "string-length"})
